@@ -1,6 +1,6 @@
 (* C14  Concurrent processes: no lost entries, no phantom or torn reads.
    Only statements, each closed by a lemma of Store/*.v, with Print Assumptions. *)
-From Klepto Require Import OMap OMapFacts DictSpec FileArch DirProto.
+From Klepto Require Import OMap OMapFacts DictSpec FileArch FileConc DirProto.
 
 (* single file: a reader scheduled at any point of a save sees a complete earlier or later dictionary *)
 Theorem C14_file_reader_sees_complete : forall fs m n,
@@ -17,6 +17,27 @@ Proof. exact file_old_protocol_reader_refuted. Qed.
 Theorem C14_file_opener_loses_write_refuted :
   exists fs m, let opened_late := frun (frun fs (save m)) (save (asdict fs)) in asdict opened_late <> m.
 Proof. exact file_opener_loses_write_refuted. Qed.
+
+(* two processes on one file, each with its own local copy and temporary file: under EVERY interleaving
+   of a writer with a reader the reader sees the complete earlier or later dictionary and the
+   writer's result stands; readers never disturb anything *)
+Theorem C14_file_writer_reader_all_interleavings : forall m f l, pinter (writer f) reader l ->
+  view (prun (start m) l) = f m /\ (loc2 (prun (start m) l) = m \/ loc2 (prun (start m) l) = f m).
+Proof. exact writer_reader_all_interleavings. Qed.
+
+Theorem C14_file_readers_only : forall m l, pinter reader reader l -> view (prun (start m) l) = m.
+Proof. exact reader_reader_all_interleavings. Qed.
+
+(* the opener (constructor: read, then save what was read) against a writer: an interleaving exists in
+   which the completed write is lost; run one after the other nothing is lost (K11) *)
+Theorem C14_file_writer_opener_lost_write_refuted :
+  exists m f l, pinter (writer f) opener l /\ view (prun (start m) l) <> f m.
+Proof. exact writer_opener_lost_write_refuted. Qed.
+
+Theorem C14_file_writer_opener_serial : forall m f,
+  view (prun (start m) (map (pair true) (writer f) ++ map (pair false) opener)) = f m /\
+  view (prun (start m) (map (pair false) opener ++ map (pair true) (writer f))) = f m.
+Proof. exact writer_opener_serial. Qed.
 
 (* directory: a process whose names nobody else touches ends as if it had run alone, whatever the schedule *)
 Theorem C14_dir_isolated_process : forall (S : dname -> Prop) l1 l2 l,
@@ -58,3 +79,7 @@ Print Assumptions C14_dir_isolated_process.
 Print Assumptions C14_dir_concurrent_stores_both_land.
 Print Assumptions C14_dir_reader_during_store.
 Print Assumptions C14_dir_list_then_lookup_race_refuted.
+Print Assumptions C14_file_writer_reader_all_interleavings.
+Print Assumptions C14_file_readers_only.
+Print Assumptions C14_file_writer_opener_lost_write_refuted.
+Print Assumptions C14_file_writer_opener_serial.
